@@ -45,6 +45,10 @@ func buildGroovyMap(pathExprCtx *parser.PathExpressionContext) []core_domain.Cod
 			return nil
 		}
 	}
+	if pathExprCtx.GetChildCount() < 2 {
+		// a bare name (`dependencies 'x'`, no closure follows it): nothing to extract
+		return nil
+	}
 	pathChild := pathExprCtx.GetChild(1)
 	if pathChild != nil {
 		pathElement := pathChild.(*parser.PathElementContext)
